@@ -252,6 +252,124 @@ def replay_smt2(desc):
     return 0
 
 
+# ---- SMT-LIB export, class by class (real z3, concrete problems) ---------------------------------------------
+def _sweep_elements():
+    """every public constraint / indicator / objective class (C18's acceptance sweep), plus a concurrent buffer"""
+    import inspect
+    from checks import c18
+    from processscheduler.base import BaseModelWithJson
+    out = []
+    for cname in sorted(dir(ps)):
+        cls = getattr(ps, cname)
+        if not (inspect.isclass(cls) and issubclass(cls, BaseModelWithJson)) or cname in c18.SWEEP_SKIP:
+            continue
+        if cname.endswith(("Task", "Worker", "Workers", "Function", "Buffer")) and cname not in ("TaskLoadBuffer", "TaskUnloadBuffer"):
+            continue  # tasks, resources, functions and buffers are part of the environment itself
+        out.append(cname)
+    return out + ["ConcurrentBufferAccesses"]
+
+
+def _declare_element(cname):
+    from checks import c18
+    e = c18._env()
+    if cname == "ConcurrentBufferAccesses":
+        b = ps.ConcurrentBuffer(name="CB", initial_level=3, lower_bound=0)
+        ps.TaskUnloadBuffer(task=e["t2"], buffer=b, quantity=2)
+        ps.TaskLoadBuffer(task=e["t3"], buffer=b, quantity=1)
+        return
+    cls = getattr(ps, cname)
+    is_obj = cname.startswith("Objective")
+    req = c18.OBJECTIVE_ARGS.get(cname, []) if is_obj else [f for f, fi in cls.model_fields.items() if fi.is_required()]
+    kw = {r: c18.REQUIRED[r](e) for r in req}
+    if cname.startswith("OptionalTask"):
+        kw.update({k: e["o1"] for k in ("task", "task_2") if k in kw})
+    if cname == "IndicatorBounds":
+        kw["lower_bound"] = 0
+    if cname in ("TaskLoadBuffer", "TaskUnloadBuffer"):
+        kw["task"] = e["t2"]
+    cls(**kw)
+
+
+def smt2_class_shape(cname):
+    name = f"smt2_classes/{cname}"
+
+    def build(P):
+        return Ctx(problem=None)
+
+    @library_failure
+    def fn(ctx, path):
+        problems = check_smt2_class(cname)
+        if problems:
+            return {"status": "sat", "queries": 2, "witness": {"params": {}, "pins": {}, "what": problems[0]}}
+        return {"status": "unsat", "queries": 2}
+
+    def obligations(ctx):
+        return [Ob(f"{PROP}/{name}/export_denotes_the_checked_system", "custom", fn=fn, replayer="checks.c16:replay_smt2_class")]
+
+    sh = Shape(name, build, obligations, initialize=False)
+    sh.grid = False
+    sh.cname = cname
+    return sh
+
+
+def check_smt2_class(cname):
+    """export with the real solver, parse the text back, and let z3 decide that the parsed script and the solver's own
+    assertions are the same constraint system (same constant names on both sides: two implication queries)"""
+    problems = []
+    with quiet(), warnings.catch_warnings():
+        warnings.simplefilter("ignore")
+        pb = ps.SchedulingProblem(name="exp", horizon=12)
+        _declare_element(cname)
+        solver = ps.SchedulingSolver(problem=pb, **({"optimizer": "optimize"} if cname.startswith("Objective") and cname < "ObjectiveMinimize" else {}))
+        tmp = tempfile.mkdtemp(prefix="c16k_")
+        fn = os.path.join(tmp, "p.smt2")
+        try:
+            solver.export_to_smt2(fn)
+            text = open(fn).read()
+        finally:
+            if os.path.exists(fn):
+                os.unlink(fn)
+            os.rmdir(tmp)
+        own = list(solver._solver.assertions())
+        is_opt = isinstance(solver._solver, z3.Optimize)
+    engine.reset_z3_globals()
+    try:
+        if is_opt:
+            o = z3.Optimize()
+            o.from_string(text)
+            exported = list(o.assertions())
+            if len(o.objectives()) != len(solver._solver.objectives()):
+                problems.append(f"{cname}: exported script has {len(o.objectives())} objectives, the solver {len(solver._solver.objectives())}")
+        else:
+            exported = list(z3.parse_smt2_string(text))
+    except z3.Z3Exception as e:
+        return [f"{cname}: the exported text does not parse: {e}"]
+    for a, b, what in ((exported, own, "a model of the export is not a model of the solver's system"), (own, exported, "a model of the solver's system is not a model of the export")):
+        sv = z3.Solver()
+        sv.set("timeout", 30000)
+        sv.add(a)
+        sv.add(z3.Not(z3.And(b)))
+        r = sv.check()
+        if r == z3.sat:
+            problems.append(f"{cname}: {what}")
+        elif r != z3.unsat:
+            problems.append(f"{cname}: z3 could not compare the export with the system ({r})")
+    return problems
+
+
+@confirm_library_failure
+def replay_smt2_class(desc):
+    import symx.harness as H
+
+    shape = H.get_shape(desc["module"], desc["shape"])
+    problems = check_smt2_class(shape.cname)
+    print("replay:", problems[:2])
+    if problems and "could not compare" not in problems[0]:
+        print("CONFIRMED: " + problems[0])
+        return 1
+    return 0
+
+
 # ---- data frame and Excel on a symbolic solution --------------------------------------------------------
 class RecDF:
     def __init__(self, data):
@@ -708,6 +826,8 @@ def shapes(tier):
         out.append(table_shape(v, "dataframe"))
         if v != "cumulative_in_list" or tier == "thorough":
             out.append(table_shape(v, "excel"))
+    for cname in _sweep_elements():
+        out.append(smt2_class_shape(cname))
     for tag in ("solution_all_scheduled", "solution_unscheduled", "solution_buffer", "solution_calendar", "definitions_tasks", "definitions_functions", "definitions_tasks_grid", "definitions_functions_grid"):
         out.append(concrete_shape(tag))
     return out
